@@ -498,3 +498,22 @@ func wholeSliceCompares(fn *ssa.Function) []ssa.CallInstruction {
 	}
 	return out
 }
+
+// floatToIntConverts lists the conversions of a floating-point value to an integer type in fn.
+func floatToIntConverts(fn *ssa.Function) []*ssa.Convert {
+	var out []*ssa.Convert
+	for _, b := range fn.Blocks {
+		for _, in := range b.Instrs {
+			cv, ok := in.(*ssa.Convert)
+			if !ok {
+				continue
+			}
+			from, okF := cv.X.Type().Underlying().(*types.Basic)
+			to, okT := cv.Type().Underlying().(*types.Basic)
+			if okF && okT && from.Info()&types.IsFloat != 0 && to.Info()&types.IsInteger != 0 {
+				out = append(out, cv)
+			}
+		}
+	}
+	return out
+}
